@@ -18,10 +18,10 @@ _ST = (" Source tie (DESIGN.md section 16): the CURRENT text of {f} in /repo is 
        "as Python's `&`, totalised list indexing).")
 SRC_TIE = {
     "C03": _ST.format(f="typeutils._to_slot_size", t="XoGen.src_to_slot_size"),
-    "C05": _ST.format(f="typeutils._to_slot_size", t="XoGen.src_to_slot_size"),
+    "C05": _ST.format(f="typeutils._to_slot_size, array.iter_index", t="XoGen.src_to_slot_size, src_slot_least, src_iter_index"),
     "C04": _ST.format(f="context._align, Chunk.overlaps, Chunk.merge, XBuffer.grow (whole method), copy_to_native", t="XoGen.src_align (alignments that are powers of two), src_align_least, src_chunk_overlaps, src_chunk_merge, src_grow (the translated grow IS Alloc.Buf.grow), src_copy_to_native"),
     "C12": _ST.format(f="context._align, Chunk.size, Chunk.overlaps, Chunk.merge", t="XoGen.src_align (alignments that are powers of two), src_align_least, src_chunk_size, src_chunk_overlaps, src_chunk_merge, src_grow"),
-    "C01": _ST.format(f="array.get_c_strides / get_strides / get_offset / mk_order", t="XoGen.src_get_c_strides, src_get_strides, src_get_offset, src_item_offset, src_mk_order_*"),
+    "C01": _ST.format(f="array.get_c_strides / get_strides / get_offset / mk_order", t="XoGen.src_get_c_strides, src_get_strides, src_get_offset, src_item_offset, src_mk_order_*, src_iter_index"),
     "C02": _ST.format(f="array.get_c_strides / get_strides", t="XoGen.src_get_c_strides, src_get_strides"),
     "C06": _ST.format(f="array.get_c_strides / get_strides / get_offset / mk_order", t="XoGen.src_get_c_strides, src_get_strides, src_get_offset, src_item_offset, src_mk_order_*"),
     "C13": _ST.format(f="context_cpu.BufferNumpy / BufferByteArray .update_from_native, .to_native, .copy_to_native, .update_from_buffer, .to_bytearray",
